@@ -174,6 +174,10 @@ def run_case(GroupBy, c):
         return [dict(sig={**sig, "what": "raised", "exc": type(e).__name__}, what=f"{op} with keys in {c['kcont']} and {c['vdt']} values in {c['vcont']} raised {e!r}"[:300], observed=repr(e)[:200], expected=str(ref)[:200])]
     viol = []
     approx = op == "mean" or c["vdt"] == "float32"
+    if not row_aligned:
+        # the same labels and the same numbers; the ORDER of the labels is C11's subject (a dictionary-typed key
+        # carries its own category order)
+        got = sorted(got, key=lambda t: str(t[0])); ref = sorted(ref, key=lambda t: str(t[0]))
     same = len(got) == len(ref) and all((a[0] == b[0] and _close(a[1], b[1], approx)) if isinstance(a, tuple) else _close(a, b, approx) for a, b in zip(got, ref))
     if not same:
         viol.append(dict(sig={**sig, "what": "differs"}, what=f"{op}: keys in {c['kcont']} / values {c['vdt']} in {c['vcont']} differ from the NumPy reference", observed=str(got)[:400], expected=str(ref)[:400]))
